@@ -46,6 +46,12 @@ CHECKS = {
  "C14": ("exploration", "runtime monitor of nil/NULL handling over every codec x accepted representation x element position",
   "Every codec is driven with every nil-able source and null input into every accepted destination (acceptance decided by observation), and containers with a null at every element position are round-tripped and inspected with an own wire walker; v2 collections must refuse nulls.",
   "Acceptance of a representation is observed, not assumed; nesting depth and width are bounded. " + TB, "DESIGN.md §4 C14"),
+ "C15": ("exploration", "end-to-end monitor: library client/server vs an independent raw TCP peer judging wire bytes (child processes)",
+  "Library client <-> library server over TCP, and each library end against a raw peer built on the independent frame codec and segment writer, for 6 versions x {none, LZ4, Snappy} x auth on/off: frames delivered must equal frames sent (in order, exactly once, decided by barrier frames, not clocks); the peer checks the wire bytes (handshake unframed, CRC-valid segments, envelopes inside segments not compressed, legacy body compression formats) and chooses segmentations (1..21 envelopes per segment, every split point >= 9 of small envelopes, boundary/PRNG splits of envelopes up to 528 KB).",
+  "The library runs in child processes (a death is attributed to a case and confirmed by re-running it alone). Split points inside the 9-byte envelope header are run but not judged. " + TB, "DESIGN.md §4 C15"),
+ "C16": ("fault_enumeration", "fault injection at every step boundary of scripted sessions + rendezvous/perturbation via log hook; post-fault obligations judged on stable goroutine snapshots",
+  "A close/reset/silence/ctx-cancel/IO-error fault is injected at each step boundary of scripted sessions from the client side, the server side and the network (TCP, raw peer, net.Pipe behind a fault-injecting conn), also concurrently with senders and blocked receivers and with rendezvous orderings forced through the zerolog hook; afterwards every pending request must be closed with a non-nil error, receivers returned, sends refused, Close returned, no client-package goroutine alive, child process alive. Timeout clauses are judged on the monitor's own timestamps with inconclusive escapes.",
+  "Interleavings are sampled (rendezvous + hunts of ~6e3 attempts in quick); data-race reports are evidence only. Hook: client/verif_hooks.go. " + TB, "DESIGN.md §4 C16"),
  "C17": ("exploration", "runtime heap-aliasing monitor: reflective disjointness of reachable mutable memory + mutate-and-observe",
   "Every type with a deep-copy operation (enumerated from source at run time and cross-checked with a static registry) is populated in every field, copied through every copy method, and the copy is checked for equality, for disjointness of all reachable mutable memory, and by mutating every reachable location and re-dumping the other side. A canary (identity and shallow copies) must be flagged on every run.",
   "Populated instances are PRNG-drawn; a type missing from the registry is reported inconclusive. " + TB, "DESIGN.md §4 C17"),
